@@ -7,6 +7,7 @@ mod drivers;
 mod epoll;
 mod explore;
 mod sched;
+mod regworld;
 mod seqhooks;
 mod tracked;
 mod world;
